@@ -36,24 +36,69 @@ theorem closed_files_refine_spec (uc : UC) (fs : FS) (paths : List Bytes) (allow
 
 /-! ### what the numbers and units of a closed benchmark line are -/
 
-/-- The measurements `vals` reported for the value/unit fields `ms`: pairwise, each value text
-`v` is read by C03's model of the reader's `atof` to some float `x` — which is C03's
-*specified* value `parseFloatSpec v` whenever the reader's integer fast path answers — and what
-is reported is C04's *specification* `Spec.Tidy.report x u` (base unit, value times factor,
-original pair kept exactly when the unit changed). -/
+theorem splitAtSep_mem (sp : RuneB → Bool) : ∀ (l : List RuneB) (p : List RuneB),
+    p ∈ splitAtSep sp l → ∀ r ∈ p, r ∈ l
+  | [], p, hp, r, hr => by
+    simp only [splitAtSep, List.mem_singleton] at hp
+    subst hp; simp at hr
+  | a :: l, p, hp, r, hr => by
+    rw [splitAtSep_eq] at hp
+    rcases List.mem_cons.1 hp with h | h
+    · subst h
+      exact (List.takeWhile_sublist _).subset hr
+    · cases hd : (a :: l).dropWhile (fun r => !sp r) with
+      | nil => rw [hd] at h; simp at h
+      | cons s m =>
+        rw [hd] at h
+        have hsub : m.length < (a :: l).length := by
+          have := (List.dropWhile_sublist (fun r => !sp r) (l := a :: l)).length_le
+          rw [hd] at this; simp at this ⊢; omega
+        have hm := splitAtSep_mem sp m p h r hr
+        have : m.Sublist (a :: l) :=
+          List.Sublist.trans (List.sublist_cons_self s m) (hd ▸ List.dropWhile_sublist _)
+        exact this.subset hm
+termination_by l => l.length
+
+/-- Every field of a line is a non-empty byte string. -/
+theorem fields_nonempty (uc : UC) (x : Bytes) : ∀ f ∈ (firstAndFields uc x).2.2, f ≠ [] := by
+  intro f hf
+  unfold firstAndFields at hf
+  cases hs : splitAtSep (isSp uc) (runes x) with
+  | nil => rw [hs] at hf; simp at hf
+  | cons p0 later =>
+    rw [hs] at hf
+    simp only [List.mem_map, List.mem_filter] at hf
+    obtain ⟨p, ⟨hp, hne⟩, rfl⟩ := hf
+    cases p with
+    | nil => simp at hne
+    | cons r rest =>
+      have hmem : r ∈ runes x :=
+        splitAtSep_mem (isSp uc) (runes x) (r :: rest) (hs ▸ List.mem_cons_of_mem _ hp) r
+          (List.mem_cons_self ..)
+      have := runesFrom_enc_pos x 0 r hmem
+      rw [enc_cons]
+      intro h0
+      exact this (List.append_eq_nil_iff.1 h0).1
+
+/-- The measurements `vals` reported for the value/unit fields `ms`: pairwise, the value text
+`v` is read to a float `x` by the (fully mirrored) model of the reader's `atof`; under C03's two
+hypotheses on the numeral — exponent literal below 10000, not in the class of finding N3 (more
+than 800 significant digits) — `x` is the SPECIFIED, correctly rounded value `parseFloatSpec v`;
+and what is reported is C04's SPECIFICATION `Spec.Tidy.report x u`: base unit, value times
+factor, the written pair kept exactly when the unit changed. -/
 inductive Reported : List Bytes → List Val → Prop
   | nil : Reported [] []
   | cons (v u : Bytes) (ms : List Bytes) (val : Val) (vals : List Val) (x : F64.Bits) :
-      (Num.readerAtof v).toExcept = .ok x →
-      (v ≠ [] → ∀ i, Num.atofLoop v 0 = some i → Spec.NumText.parseFloatSpec v = .ok x) →
+      (Num.readerAtofMirror v).toExcept = .ok x →
+      (C03.expLit v < 10000 → Num.inClassN3 v = false → Spec.NumText.parseFloatSpec v = .ok x) →
       (val.value, val.unit, val.origValue, val.origUnit) = Spec.Tidy.report x u →
       Reported ms vals → Reported (v :: u :: ms) (val :: vals)
 
 theorem closedAtof_ok {v : Bytes} {x : UInt64} (h : closedAtof v = .ok x) :
-    (Num.readerAtof v).toExcept = .ok x := by
+    (Num.readerAtofMirror v).toExcept = .ok x := by
   unfold closedAtof at h
   unfold Num.FloatRes.toExcept
-  cases he : (Num.readerAtof v).err with
+  cases he : (Num.readerAtofMirror v).err with
   | none => rw [he] at h; simpa using h
   | some e => rw [he] at h; cases h
 
@@ -71,16 +116,16 @@ theorem mkVal_closed (uc : UC) (x : UInt64) (u : Bytes) :
     split <;> rfl
 
 theorem measurements_closed (uc : UC) : ∀ (ms : List Bytes) (vals : List Val),
-    measurements (closedOracles uc) ms = .ok vals → Reported ms vals
-  | [], vals, h => by
+    (∀ f ∈ ms, f ≠ []) → measurements (closedOracles uc) ms = .ok vals → Reported ms vals
+  | [], vals, _, h => by
     simp only [measurements] at h
     cases h; exact .nil
-  | [v], vals, h => by
+  | [v], vals, _, h => by
     simp only [measurements] at h
     cases ha : (closedOracles uc).atof v with
     | error e => rw [ha] at h; cases h
     | ok x => rw [ha] at h; cases h
-  | v :: u :: ms, vals, h => by
+  | v :: u :: ms, vals, hne, h => by
     simp only [measurements] at h
     cases ha : (closedOracles uc).atof v with
     | error e => rw [ha] at h; simp at h
@@ -94,9 +139,12 @@ theorem measurements_closed (uc : UC) : ∀ (ms : List Bytes) (vals : List Val),
         simp only [Except.ok.injEq] at h
         subst h
         have hx := closedAtof_ok (show closedAtof v = .ok x from ha)
-        refine .cons v u ms _ vs x hx ?_ (mkVal_closed uc x u) (measurements_closed uc ms vs hm)
-        intro hne i hi
-        rw [← C03.atof_fast_correct v hne i hi]; exact hx
+        have hv : v ≠ [] := hne v (List.mem_cons_self ..)
+        refine .cons v u ms _ vs x hx ?_ (mkVal_closed uc x u)
+          (measurements_closed uc ms vs
+            (fun f hf => hne f (List.mem_cons_of_mem _ (List.mem_cons_of_mem _ hf))) hm)
+        intro hlit hN3
+        rw [← C03.reader_atof_mirror_correct v hv hlit hN3]; exact hx
 
 theorem closedAtoi_ok {s : Bytes} {n : Int} (h : closedAtoi s = .ok n) :
     Spec.NumText.parseIntSpec s = .ok n := by
@@ -116,8 +164,8 @@ theorem closedAtoi_ok {s : Bytes} {n : Int} (h : closedAtoi s = .ok n) :
 /-- **closed_values_reported.** Whenever the closed reader accepts a benchmark line, with
 `name`, `n` iterations and measurements `vals`: the line's first piece after `Benchmark` is
 `name`, its next field `it` denotes exactly the integer `n` (C03's specification of `Atoi`:
-`[sign] digits`, exact, within int64), and `vals` are `Reported` for the remaining fields
-(C03 model/spec for each value text, C04 specification for each unit). -/
+`[sign] digits`, exact, within int64 — no hypothesis), and `vals` are `Reported` for the
+remaining fields. -/
 theorem closed_values_reported (uc : UC) (line name : Bytes) (n : Int) (vals : List Val)
     (h : parseBenchmarkLine (closedOracles uc) line = .ok name n vals) :
     ∃ it ms, firstAndFields uc (line.drop 9) = (name, true, it :: ms) ∧
@@ -126,17 +174,18 @@ theorem closed_values_reported (uc : UC) (line name : Bytes) (n : Int) (vals : L
   unfold benchLine at h
   have huc : (closedOracles uc).uc = uc := rfl
   rw [huc] at h
+  have hne := fields_nonempty uc (line.drop 9)
   cases hf : firstAndFields uc (line.drop 9) with
   | mk nm rest =>
     obtain ⟨hasSp, flds⟩ := rest
-    rw [hf] at h
+    rw [hf] at h hne
     cases hasSp with
     | false => simp at h
     | true =>
       cases flds with
       | nil => simp at h
       | cons it ms =>
-        simp only at h
+        simp only at h hne
         cases ha : (closedOracles uc).atoi it with
         | error e => rw [ha] at h; simp at h
         | ok k =>
@@ -152,18 +201,96 @@ theorem closed_values_reported (uc : UC) (line name : Bytes) (n : Int) (vals : L
               simp only [BenchOut.ok.injEq] at h
               obtain ⟨rfl, rfl, rfl⟩ := h
               exact ⟨it, ms, rfl, closedAtoi_ok (show closedAtoi it = .ok k from ha),
-                measurements_closed uc ms vs hm⟩
+                measurements_closed uc ms vs (fun f hf => hne f (List.mem_cons_of_mem _ hf)) hm⟩
 
-/-- **closed_values_correctly_rounded_partial.** A value text made of decimal digits that the
-reader's integer fast path accepts is reported as the correctly rounded float64 of that integer
-(C03 `atof_fast_correct`). PARTIAL: for texts that fall through to `bytesconv.ParseFloat`
-the value is C03's *model* `Num.readerAtof`; C03 proves its stages (`special_correct`,
-`readFloat_value_partial`, `exact_path_correct_partial`, the slow path is the specification by
-construction) but has no single theorem `readerAtof = parseFloatSpec`, so none is claimed here. -/
-theorem closed_values_correctly_rounded_partial (v : Bytes) (hne : v ≠ []) (i : Int)
-    (hi : Num.atofLoop v 0 = some i) (x : UInt64) (h : closedAtof v = .ok x) :
-    Spec.NumText.parseFloatSpec v = .ok x := by
-  rw [← C03.atof_fast_correct v hne i hi]; exact closedAtof_ok h
+/-! ### from lines to the whole text -/
+
+/-- Every result in the stream comes from one line: its number is the record's line number,
+and the line parser produced exactly the record's name, iterations and values. -/
+theorem readLines_result_origin (O : Oracles) (ls : List Bytes) :
+    ∀ (st : RState) (r : Res), Rec.result r ∈ readLines O st ls →
+      ∃ (i : Nat) (l : Bytes), ls[i]? = some l ∧ r.line = st.line + i + 1 ∧
+        Bytes.hasPrefix l benchmarkPrefix = true ∧
+        parseBenchmarkLine O l = .ok r.name r.iters r.values := by
+  induction ls with
+  | nil => intro st r h; simp [readLines] at h
+  | cons l ls ih =>
+    intro st r h
+    simp only [readLines] at h
+    rcases List.mem_append.1 h with h | h
+    · refine ⟨0, l, rfl, ?_⟩
+      unfold scanLine at h
+      simp only at h
+      split at h
+      · rename_i hp
+        split at h
+        · rename_i nm it vs hb
+          simp only [List.mem_singleton, Rec.result.injEq] at h
+          subst h
+          exact ⟨rfl, hp, hb⟩
+        · simp at h
+        · simp at h
+      · rw [unit_guard] at h
+        split at h
+        · have := parseUnitLine_noResult O st.fileName (st.line + 1) st.units _ _ h
+          simp [Rec.isResult] at this
+        · split at h <;> simp at h
+    · obtain ⟨i, l', hi, hl, hp, hb⟩ := ih _ r h
+      have hline : (scanLine O st l).1.line = st.line + 1 := by
+        unfold scanLine
+        simp only
+        split
+        · split <;> rfl
+        · split
+          · rfl
+          · split <;> rfl
+      exact ⟨i + 1, l', by simpa using hi, by rw [hl, hline]; omega, hp, hb⟩
+
+/-- **closed_values_correctly_rounded.** For EVERY input text and file name: every result the
+closed reader reports stems from the line whose number it carries; that line starts with
+`Benchmark`, its first piece is the reported name, its next field denotes exactly the reported
+iteration count (C03 `parseIntSpec`), and the reported measurements are `Reported` for the
+remaining fields — i.e. each value is the CORRECTLY ROUNDED float64 of its numeral
+(`parseFloatSpec`, under exactly C03's two hypotheses on that numeral: exponent literal < 10000,
+not in class N3) tidied per C04's specification. (Lines that do not parse yield a positioned
+`SyntaxError` or nothing: `C03.errors_become_syntax_errors`, `reader_refines_spec`.) -/
+theorem closed_values_correctly_rounded (uc : UC) (fileName text : Bytes) (r : Res)
+    (hr : Rec.result r ∈ Reader.closed uc fileName text) :
+    ∃ (line it : Bytes) (ms : List Bytes),
+      1 ≤ r.line ∧ (splitLines text)[r.line - 1]? = some line ∧
+      Bytes.hasPrefix line benchmarkPrefix = true ∧
+      firstAndFields uc (line.drop 9) = (r.name, true, it :: ms) ∧
+      Spec.NumText.parseIntSpec it = .ok r.iters ∧ Reported ms r.values := by
+  obtain ⟨i, l, hi, hl, hp, hb⟩ := readLines_result_origin (closedOracles uc) (splitLines text) _ r hr
+  obtain ⟨it, ms, hf, hit, hrep⟩ := closed_values_reported uc l r.name r.iters r.values hb
+  have h0 : (RState.zero.reset fileName []).line = 0 := rfl
+  rw [h0] at hl
+  refine ⟨l, it, ms, by omega, ?_, hp, hf, hit, hrep⟩
+  have : r.line - 1 = i := by omega
+  rw [this]; exact hi
+
+/-- **reported_value_is_scaled_numeral** (composition with C04 `tidy_spec`). A reported
+measurement whose unit `u` has a different base form carries the base unit, the value
+`F64.mul x factor` (one float64 multiplication of the numeral's value by the unit's factor), and
+keeps the written pair; a unit already in base form is reported as written. -/
+theorem reported_value_is_scaled_numeral (val : Val) (x : F64.Bits) (u : Bytes)
+    (h : (val.value, val.unit, val.origValue, val.origUnit) = Spec.Tidy.report x u) :
+    ((Spec.Tidy.tidyUnit u).1 ≠ u →
+      val.unit = (Spec.Tidy.tidyUnit u).1 ∧ val.value = F64.mul x (Spec.Tidy.tidyUnit u).2 ∧
+      val.origValue = x ∧ val.origUnit = u) ∧
+    ((Spec.Tidy.tidyUnit u).1 = u →
+      val.unit = u ∧ val.value = x ∧ val.origValue = 0 ∧ val.origUnit = []) := by
+  unfold Spec.Tidy.report Spec.Tidy.tidy at h
+  simp only at h
+  constructor
+  · intro hne
+    have hb : ((Spec.Tidy.tidyUnit u).1 == u) = false := by simpa using hne
+    simp only [hb, Bool.false_eq_true, ↓reduceIte, Prod.mk.injEq] at h
+    exact ⟨h.2.1, h.1, h.2.2.1, h.2.2.2⟩
+  · intro he
+    have hb : ((Spec.Tidy.tidyUnit u).1 == u) = true := by simpa using he
+    simp only [hb, ↓reduceIte, Prod.mk.injEq] at h
+    exact ⟨h.2.1, h.1, h.2.2.1, h.2.2.2⟩
 
 /-- Non-vacuity: `BenchmarkX 5 1500 ns/op` through the closed model, evaluated by the kernel:
 5 iterations, 1.5e-6 sec/op with the written 1500 ns/op kept. -/
